@@ -80,6 +80,8 @@ type vC08Reader struct {
 	si       int
 	term     error
 	together bool
+	rest     []byte // transient fault: the bytes delivered after the error has been reported once
+	fired    bool
 	calls    int
 	starts   []int // offset at the start of every Read call (when recording)
 	record   bool
@@ -96,6 +98,31 @@ func (r *vC08Reader) Read(p []byte) (int, error) {
 	}
 	r.calls++
 	if r.off >= len(r.data) {
+		if r.rest != nil {
+			// transient fault: reported once (now, unless it went out with the last bytes), then the
+			// stream goes on
+			if !r.fired {
+				r.fired = true
+				return 0, r.term
+			}
+			n := len(p)
+			if len(r.segs) > 0 {
+				s := r.segs[r.si%len(r.segs)]
+				r.si++
+				if s > 0 && s < n {
+					n = s
+				}
+			}
+			if n > len(r.rest) {
+				n = len(r.rest)
+			}
+			if n == 0 {
+				return 0, io.EOF
+			}
+			copy(p, r.rest[:n])
+			r.rest = r.rest[n:]
+			return n, nil
+		}
 		if r.reported {
 			r.after++
 		}
@@ -117,6 +144,7 @@ func (r *vC08Reader) Read(p []byte) (int, error) {
 	r.off += n
 	if r.together && r.off == len(r.data) {
 		r.reported = true
+		r.fired = true
 		return n, r.term
 	}
 	return n, nil
@@ -131,6 +159,8 @@ type vC08Writer struct {
 	term   error
 	failed bool
 	after  int
+	transient bool // the Write calls after the faulty one succeed again
+	faults    int  // Write calls that returned a non-nil error
 }
 
 func (w *vC08Writer) Write(p []byte) (int, error) {
@@ -143,7 +173,10 @@ func (w *vC08Writer) Write(p []byte) (int, error) {
 	}
 	w.sizes = append(w.sizes, len(p))
 	if w.calls == w.failAt {
-		w.failed = true
+		w.failed = !w.transient
+		if w.term != nil {
+			w.faults++
+		}
 		w.calls++
 		mm := w.m
 		if mm > len(p) {
@@ -279,7 +312,8 @@ func vC08RunFlvRead(c vSx) (obs vSx, fails []vC08Fail, nontrivial bool, failK in
 	if !ok || !tok || !c.l[6].isInt() || !c.l[7].isList() {
 		return bad, nil, false, -1
 	}
-	together := c.l[6].int() != 0
+	together := c.l[6].int()&1 != 0
+	transient := c.l[6].int() >= 2 && termID != 0 // the error is reported once, then the file goes on
 	var segs []int
 	for _, s := range c.l[7].l {
 		if !s.isInt() || s.int() < 0 {
@@ -311,6 +345,9 @@ func vC08RunFlvRead(c vSx) (obs vSx, fails []vC08Fail, nontrivial bool, failK in
 	out := []vSx{vZ(0)}
 	for _, k := range ks {
 		rd := &vC08Reader{data: wire[:k], segs: segs, term: term, together: together}
+		if transient {
+			rd.rest = append([]byte{}, wire[k:]...)
+		}
 		d, _ := NewDemuxer(rd)
 		n := 0
 		var err error
@@ -362,10 +399,26 @@ func vC08RunFlvRead(c vSx) (obs vSx, fails []vC08Fail, nontrivial bool, failK in
 		out = append(out, vL(vI(n), vI(cid)))
 		// direct oracles (statement of C08)
 		want := 0
+		atEnd := false
 		for _, e := range ends {
 			if e <= k {
 				want++
 			}
+			if e == k {
+				atEnd = true
+			}
+		}
+		if transient && together && atEnd {
+			// io.CopyN got all the bytes it asked for together with the transient error: the stdlib
+			// reports success, nobody sees the error again, the session reads on to the end of the file
+			want = len(ends)
+			if n >= 0 && n != want {
+				fail(k, "c08-items", fmt.Sprintf("%d operations succeeded, want %d (error delivered with the last byte of an item, then the file goes on)", n, want))
+			}
+			if n >= 0 && cid != 0 {
+				fail(k, "c08-root-cause", fmt.Sprintf("cause id %d, want io.EOF at the end of the file", cid))
+			}
+			continue
 		}
 		if n >= 0 && n != want {
 			fail(k, "c08-items", fmt.Sprintf("%d operations succeeded, %d are completely contained in the first %d bytes", n, want, k))
@@ -401,9 +454,10 @@ func vC08RunFlvRead(c vSx) (obs vSx, fails []vC08Fail, nontrivial bool, failK in
 func vC08RunFlvWrite(c vSx) (obs vSx, fails []vC08Fail, nontrivial bool, failK int) {
 	bad := vL(vZ(-1))
 	failK = -1
-	if len(c.l) != 8 {
+	if len(c.l) != 8 && len(c.l) != 9 {
 		return bad, nil, false, -1
 	}
+	transient := len(c.l) == 9 && c.l[8].isInt() && c.l[8].int() == 0
 	hv, ha, tags, ok := vC08ParseTags(c)
 	if !ok || !c.l[5].isInt() || !c.l[6].isInt() || c.l[6].int() < 0 {
 		return bad, nil, false, -1
@@ -447,7 +501,7 @@ func vC08RunFlvWrite(c vSx) (obs vSx, fails []vC08Fail, nontrivial bool, failK i
 	}
 	out := []vSx{vZ(0)}
 	for _, fi := range is {
-		w := &vC08Writer{failAt: fi, m: m, term: term}
+		w := &vC08Writer{failAt: fi, m: m, term: term, transient: transient}
 		mx, _ := NewMuxer(w)
 		n := 0
 		var err error
@@ -691,7 +745,11 @@ func TestVerifC08Flv(t *testing.T) {
 		// a failing sweep is re-recorded as a single-offset case so that the replay is minimal
 		if len(fails) > 0 && !single && fk >= 0 {
 			cc := vLs(append([]vSx{}, c.l...))
-			cc.l[len(cc.l)-1] = vL(vZ(1), vI(fk))
+			pos := 8 // <ks> of a read case
+			if write {
+				pos = 7 // <is> of a write case (a stickiness flag may follow)
+			}
+			cc.l[pos] = vL(vZ(1), vI(fk))
 			runOne(cc, true)
 		}
 	}
@@ -707,7 +765,7 @@ func TestVerifC08Flv(t *testing.T) {
 	for i := 0; i < nSmall; i++ {
 		hv, ha, tags, wl, _ := vC08GenTags(k.rnd, true)
 		for j := 0; j < 3; j++ {
-			runOne(vL(vZ(2), vZ(0), vI(hv), vI(ha), vLs(tags), vI(vC08TermRead(k.rnd)), vI(k.rnd.intn(2)), vC08GenSegs(k.rnd), vL(vZ(0), vZ(0), vI(wl))), false)
+			runOne(vL(vZ(2), vZ(0), vI(hv), vI(ha), vLs(tags), vI(vC08TermRead(k.rnd)), vI(k.rnd.intn(4)), vC08GenSegs(k.rnd), vL(vZ(0), vZ(0), vI(wl))), false)
 		}
 	}
 	// larger files: every offset when the byte budget allows, else item boundaries +-2 and random offsets
@@ -723,7 +781,7 @@ func TestVerifC08Flv(t *testing.T) {
 			off += len(b) + 4
 			marks = append(marks, off-4, off)
 		}
-		runOne(vL(vZ(2), vZ(0), vI(hv), vI(ha), vLs(tags), vI(vC08TermRead(k.rnd)), vI(k.rnd.intn(2)), vC08GenSegs(k.rnd), vC08PickKs(k, wl, marks, 1)), false)
+		runOne(vL(vZ(2), vZ(0), vI(hv), vI(ha), vLs(tags), vI(vC08TermRead(k.rnd)), vI(k.rnd.intn(4)), vC08GenSegs(k.rnd), vC08PickKs(k, wl, marks, 1)), false)
 	}
 	// error at every Read call index: record where the calls of a fault-free run start
 	nIdx := k.N(30, 300)
@@ -743,7 +801,7 @@ func TestVerifC08Flv(t *testing.T) {
 		set = vC08Thin(k, set, vC08Budget(k, wl, 1)/4)
 		k.hist["flv"]["read-call-indices"] += len(set) - 1
 		for _, term := range []int{1, 2, 4, k.rnd.pickInt(5, 6, 7, 8, 9)} {
-			runOne(vL(vZ(2), vZ(0), vI(hv), vI(ha), vLs(tags), vI(term), vI(k.rnd.intn(2)), segs, vLs(set)), false)
+			runOne(vL(vZ(2), vZ(0), vI(hv), vI(ha), vLs(tags), vI(term), vI(k.rnd.intn(4)), segs, vLs(set)), false)
 		}
 	}
 	// writes: a fault at every Write call index
@@ -751,7 +809,10 @@ func TestVerifC08Flv(t *testing.T) {
 	for i := 0; i < nW; i++ {
 		hv, ha, tags, wl, nc := vC08GenTags(k.rnd, i%3 != 0)
 		term := k.rnd.pickInt(0, 1, 2, 4, 4, 5, 6, 7, 8, 9)
-		m := k.rnd.pickInt(0, 0, 1, 3, 10, 12, 1<<30)
+		m := k.rnd.pickInt(0, 0, 1, 3, 10, 12, 255, 4095, 4096, 65535, 1<<30)
+		if k.rnd.chance(1, 3) {
+			m = k.rnd.intn(wl + 1) // any byte position inside a (large) tag body
+		}
 		is := vL(vZ(0), vZ(0), vI(nc))
 		if lim := vC08Budget(k, wl, 1); nc+1 > lim {
 			set := []vSx{vZ(1)}
@@ -760,7 +821,7 @@ func TestVerifC08Flv(t *testing.T) {
 			}
 			is = vLs(vC08Thin(k, set, lim))
 		}
-		runOne(vL(vZ(2), vZ(1), vI(hv), vI(ha), vLs(tags), vI(term), vI(m), is), false)
+		runOne(vL(vZ(2), vZ(1), vI(hv), vI(ha), vLs(tags), vI(term), vI(m), is, vI(k.rnd.intn(2))), false)
 	}
 }
 
